@@ -61,6 +61,18 @@ func (e *env) sequences() []seqT {
 			seqT{k, "twin-after-failed-receipt", [][]offerT{{{Ev: "status=0"}}, {okTwin}}},
 			seqT{k, "twin-only", [][]offerT{{okTwin}}},
 		)
+		// replay product over the transaction envelope alphabet: A attested with the
+		// transaction in envelope e1, the same reference input then offered for the
+		// twin in envelope e2 (equal hash <=> same remote transaction: e1 == e2, or
+		// the two encodings of the blob transaction)
+		for _, e1 := range envelopes {
+			for _, e2 := range envelopes {
+				if k == kUpload && (strings.HasPrefix(e1, "blob") || strings.HasPrefix(e2, "blob")) {
+					continue
+				}
+				out = append(out, seqT{k, "replay:" + e1 + "+" + e2, [][]offerT{{{Ev: "status=1", Tx: "env=" + e1}}, {{Twin: true, Ev: "status=1", Tx: "env=" + e2}}}})
+			}
+		}
 	}
 	return out
 }
@@ -171,12 +183,20 @@ func (e *env) runSeq(q seqT) {
 			}
 			trace = append(trace, fmt.Sprintf("block %d: T(%s%s) %s -> %s(id %d): valid-for-it=%v used-before=%v queued=%v => expected accept=%v; removed=%v log=%s",
 				bi, r.o.Ev, r.o.Tx, r.hash[:10], who, r.t.ID, r.valid, used[r.hash], r.queued, r.expect, r.removed, rejectClass(hits)))
+			if strings.HasPrefix(q.Name, "replay:") && r.expect && !accepted && bi > 0 {
+				// a different, unused transaction for the twin: the statement does not
+				// demand acceptance (the twin's own preconditions may be gone)
+				e.stats["replay-product:fresh-transaction-not-accepted:"+q.Kind]++
+				continue
+			}
 			if accepted != r.expect {
 				sig := "reject-valid:" + q.Kind + ":" + q.Name
 				if accepted {
 					sig = "accept-invalid:" + q.Kind + ":tx-reuse:" + q.Name
 					if !used[r.hash] {
 						sig = "accept-invalid:" + q.Kind + ":" + q.Name
+					} else if strings.HasPrefix(q.Name, "replay:") {
+						sig = "replay:accepted-twice:" + strings.TrimPrefix(q.Name, "replay:")
 					}
 				}
 				e.r.Violate(sig, strings.Join(trace, "\n"), rep)
